@@ -491,7 +491,26 @@ def D19():
     return True
 
 
-ALL = [D17, D18, D19, F_C08_1, D1, D2, D3, D4, D5, D6, D7, D8, D9, D10, D11, D12, D13, D14, D15, D16,
+def D20():
+    "C10: deepcopy drops an attribute holding a method bound to the instance itself (deepcopy(x) != x)"
+    import copy
+    from typing import Any
+
+    @spec_class
+    class H:
+        name: str = "h"
+        cb: Any = None
+
+        def ping(self):
+            return self.name
+
+    x = H(name="a")
+    x.cb = x.ping
+    y = copy.deepcopy(x)
+    return "cb" not in y.__dict__ or x != y
+
+
+ALL = [D17, D18, D19, D20, F_C08_1, D1, D2, D3, D4, D5, D6, D7, D8, D9, D10, D11, D12, D13, D14, D15, D16,
        F_C01_1, F_C02_1, F_C04_1, F_C13_1, F_C07_1, F_C07_2, F_C07_3, F_C04_2, F_C01_2]
 
 if __name__ == "__main__":
